@@ -36,6 +36,7 @@ theorem next_eq (s : PercentagePriceOscillator F) (x : F) :
                   (ppoVal (ExponentialMovingAverage.step s.fast_ema x).current
                           (ExponentialMovingAverage.step s.slow_ema x).current)).current }) := by
   unfold next
+  try simp only [gen_helper]
   simp [ExponentialMovingAverage.next_eq, ppoVal]
 
 /-- the same statement with the intermediate values named and `ppoVal` spelled out -/
@@ -52,6 +53,7 @@ theorem next_eq_let (s : PercentagePriceOscillator F) (x : F) :
 theorem nextBar_eq (s : PercentagePriceOscillator F) (b : Bar F) :
     s.nextBar b = s.next b.close := by
   unfold nextBar
+  try simp only [gen_helper]
   cases h : s.next b.close <;> simp [h]
 
 theorem next_total (s : PercentagePriceOscillator F) (x : F) (h : WF s) :
